@@ -363,6 +363,8 @@ def deref(fn: ast.AST, e: ast.AST, depth: int = 3) -> ast.AST:
             if isinstance(n, ast.Assign) and len(n.targets) == 1 and isinstance(n.targets[0], ast.Name) and n.targets[0].id == e.id:
                 if not (isinstance(n.value, ast.Constant) and n.value.value is None):      # `x = None` sentinel initialisation
                     vals.append(n.value)
+            elif isinstance(n, ast.NamedExpr) and isinstance(n.target, ast.Name) and n.target.id == e.id:
+                vals.append(n.value)                                                         # (x := E) binds like x = E
             elif isinstance(n, ast.Name) and n.id == e.id and isinstance(n.ctx, ast.Store):
                 other += 1
         nstores = len([n for n in ast.walk(fn) if isinstance(n, ast.Name) and n.id == e.id and isinstance(n.ctx, ast.Store)])
